@@ -4,7 +4,7 @@ from .report import AnalysisBroken
 
 # results assembled in a scratch buffer whose abstract content is blurred by length ranges: cleanliness not decidable here
 CLEAN_UNDECIDED = {"K$7$": "scrypt result is assembled in intbuf->outbuf with range-length copies; byte sets keep the buffer's previous content"}
-HARD = {"W", "R", "NULL", "IDX", "ABORT", "FIELD", "UAF", "FREE", "CALL"}
+HARD = {"W", "R", "NULL", "IDX", "ABORT", "FIELD", "UAF", "FREE", "CALL", "UNINIT"}
 SOFT = {"MODEL", "BUDGET"}
 OUT = 384
 
@@ -50,6 +50,7 @@ def c04(chk, g):
     chk.rule("X-R", "every load / modelled read of a non-string object lies inside it")
     chk.rule("X-IDX", "every index into a declared array stays inside the array")
     chk.rule("X-ABORT", "no path reaches __assert_fail / abort")
+    chk.rule("X-INIT", "no load / contract read touches a byte of the data object or of a local that this call has never written (exact addresses only)")
     chk.rule("X-RET", "a non-NULL result is data->output and is NUL-terminated inside the 384-byte output field")
     chk.rule("X-LEAK", "no heap block or mapping created during the call is still live at return")
     for cid, c in sorted(g["res"].items()):
@@ -57,7 +58,7 @@ def c04(chk, g):
         for p in c["paths"]:
             hard = [a for a in p["alarms"] if a["kind"] in HARD]
             for a in hard:
-                rule = {"ABORT": "X-ABORT", "IDX": "X-IDX", "R": "X-R"}.get(a["kind"], "X-W")
+                rule = {"ABORT": "X-ABORT", "IDX": "X-IDX", "R": "X-R", "UNINIT": "X-INIT"}.get(a["kind"], "X-W")
                 chk.fail(rule, "%s@%s:%d|%s" % (a["kind"], a["fn"], a["line"], g["meta"][cid]["base"]),
                          "%s in %s line %d: %s [crypt_rn, %s; size box %s]" % (a["kind"], a["fn"], a["line"], a["msg"], d, list(p["roots"][2])),
                          "%s:%d" % (a["fn"], a["line"]), {"cell": cid, "ret": p["ret"], "roots": p["roots"], "alarms": p["alarms"][:4]})
@@ -66,6 +67,7 @@ def c04(chk, g):
                 chk.count("X-R", p["nR"])
                 chk.count("X-IDX", p["nIdx"])
                 chk.count("X-ABORT", 1)
+                chk.count("X-INIT", p["nR"])
             if p["ret"] == "abort":
                 continue
             if p["ret"].startswith("ptr:"):
